@@ -101,15 +101,15 @@ let field_n k x d = match Sexp.field_opt k x with Some [v] -> n_of_sx v | _ -> d
 let field_b k x d = match Sexp.field_opt k x with Some [v] -> bool_of_sx v | _ -> d
 
 let cfg_of_sx x : cfg =
-  { c_onlyonce = (match Sexp.field_opt "delivery" x with Some [Sexp.A "onlyonce"] -> true | _ -> false);
-    c_max_inflight = field_n "max_inflight" x (n_of_int 32);
+  { c_onlyonce = (match Sexp.field_opt "delivery" x with Some [Sexp.A "overlap"] -> false | _ -> true);
+    c_max_inflight = field_n "max_inflight" x (n_of_int 100);
     c_max_queued = nat_of_int (int_of_n (field_n "max_queued" x (n_of_int 1000)));
     c_queue_qos0 = field_b "queue_qos0" x true;
     c_session_expiry = field_n "session_expiry" x (n_of_int 7200);
     c_message_expiry = field_n "message_expiry" x (n_of_int 7200);
     c_recv_max = field_n "recv_max" x (n_of_int 100);
     c_alias_max = field_n "alias_max" x (n_of_int 10);
-    c_max_packet = field_n "max_packet" x (n_of_int 0);
+    c_max_packet = field_n "max_packet" x (n_of_int 268435456);
     c_max_qos = field_n "max_qos" x (n_of_int 2);
     c_retain_avail = field_b "retain_avail" x true; c_wildcard = field_b "wildcard" x true;
     c_subid = field_b "subid" x true; c_shared = field_b "shared" x true;
